@@ -325,6 +325,7 @@ func (r *hRun) queryRowIndex(idx int) (hRow, error) {
 type hBatch struct {
 	getFailed map[string]bool
 	setFailed bool
+	setFails  []cache.C06Cmd // the SETs answered with an error
 	delFailed bool
 	sets      int
 }
@@ -354,6 +355,7 @@ func (r *hRun) absorb(fromIndexRead, background bool) (b hBatch, dels []string) 
 			case "SETEX":
 				if e.Failed {
 					b.setFailed = true
+					b.setFails = append(b.setFails, e)
 					continue
 				}
 				b.sets++
@@ -449,9 +451,13 @@ func (r *hRun) doRead(what string, id int) {
 		}
 		return
 	case b.setFailed:
+		// the GET missed properly, the database answered, only STORING the result
+		// (row or not-found marker) failed: the first clause of the statement
+		// governs - the read returns the row, or ErrNotFound. Nothing was cached,
+		// so shielding is not required afterwards.
 		r.classes["read-set-fault"] = true
-		if isCacheErr(err) {
-			return
+		if isCacheErr(err) && !wasDirty {
+			r.failf("%s: GET missed, the database answered (row exists: %v) and only the SET of %s failed with a redis error: the read returned %v instead of the row / ErrNotFound", what, exists, key, err)
 		}
 		if !wasDirty {
 			r.checkRow(what, got, err, want, exists)
@@ -532,7 +538,27 @@ func (r *hRun) doReadIndex(what string, idx int) {
 		return
 	case b.setFailed:
 		r.classes["readidx-set-fault"] = true
+		// One path is UNSPECIFIED: the index key missed, the index query found
+		// the row and storing the PRIMARY row (done by CachedConn inside the
+		// query callback) failed - the code hands that redis error to the
+		// caller; the statement's two clauses pull in different directions
+		// there, so row or redis error are both accepted (never a stale row or
+		// ErrNotFound). Everywhere else (index entry, not-found marker, primary
+		// row stored by the second Take) the read must succeed.
+		primaryStoreInIndexQuery := false
+		for _, e := range b.setFails {
+			if icalls > 0 && strings.HasPrefix(e.Keys[0], "p") && e.Val != "*" {
+				primaryStoreInIndexQuery = true
+			}
+		}
 		if isCacheErr(err) {
+			if primaryStoreInIndexQuery {
+				r.classes["readidx-primary-store-fault-unspecified"] = true
+				return
+			}
+			if !wasDirty {
+				r.failf("%s: the GETs worked, the database answered (row exists: %v) and only a SET failed with a redis error (%v): the read returned %v instead of the row / ErrNotFound", what, exists, b.setFails[0].Keys, err)
+			}
 			return
 		}
 		if !wasDirty {
